@@ -7,6 +7,8 @@ import (
 	"fmt"
 	"os"
 	"strings"
+	"sync"
+	"sync/atomic"
 	"testing"
 
 	mocker "github.com/tencent/goom"
@@ -52,13 +54,17 @@ func FVI(xs ...interface{}) string { return "orig" }
 func FMany(a, b, c, d, e, f, g, h, i, j, k int, s string, x float64) (int, float64) { return -4, -4 }
 
 //go:noinline
-func FPtr(p *Node, q *int, e error, i interface{}) (*Node, error, interface{}) { return nil, errors.New("o"), 0 }
+func FPtr(p *Node, q *int, e error, i interface{}) (*Node, error, interface{}) {
+	return nil, errors.New("o"), 0
+}
 
 //go:noinline
 func FHid(h hidden, hp *hidden) hidden { return hidden{} }
 
 //go:noinline
-func FBad(b BadStringer, e error, n *NilRecv) (BadStringer, error, *NilRecv) { return BadStringer{}, nil, nil }
+func FBad(b BadStringer, e error, n *NilRecv) (BadStringer, error, *NilRecv) {
+	return BadStringer{}, nil, nil
+}
 
 type T struct{ v int }
 
@@ -67,6 +73,9 @@ func (t *T) M(a int, s string) int { return -5 }
 
 //go:noinline
 func (t T) V(a int) int { return -6 }
+
+//go:noinline
+func (t *T) MV(xs ...string) int { return -7 }
 
 type I interface {
 	Get(a int, s string) int
@@ -127,11 +136,23 @@ func TestC19(t *testing.T) {
 			rec("F2 -> %d %q", r, t)
 		})
 		try("apply FV", func() {
-			b.Func(FV).Apply(func(s string, xs ...int) int { rec("cb FV %q %v", s, xs); return len(xs) + k })
+			b.Func(FV).Apply(func(s string, xs ...int) int {
+				rec("cb FV %q %v nil=%v", s, xs, xs == nil)
+				if len(xs) > 0 {
+					xs[0] += 1000 // the callee shares the caller's slice when called with s...
+				}
+				return len(xs) + k
+			})
 			rec("FV -> %d %d %d", FV("a"), FV("b", 1), FV("c", 1, 2, k))
+			shared := []int{1, 2, 3}
+			var none []int
+			rec("FV slice forms -> %d %d shared[0]=%d", FV("d", shared...), FV("e", none...), shared[0])
 		})
 		try("apply FVI", func() {
-			b.Func(FVI).Apply(func(xs ...interface{}) string { rec("cb FVI %d", len(xs)); return fmt.Sprint(len(xs)) })
+			b.Func(FVI).Apply(func(xs ...interface{}) string {
+				rec("cb FVI %d nil=%v", len(xs), xs == nil)
+				return fmt.Sprint(len(xs))
+			})
 			rec("FVI -> %s %s", FVI(), FVI(nil, 1, "x", (*Node)(nil), cyc == nil))
 		})
 		try("apply FMany", func() {
@@ -161,7 +182,10 @@ func TestC19(t *testing.T) {
 			rec("FHid -> %d %v", r.a, r.b == hcyc)
 		})
 		try("apply FBad", func() {
-			b.Func(FBad).Apply(func(b BadStringer, e error, n *NilRecv) (BadStringer, error, *NilRecv) { rec("cb FBad %d", b.n); return b, e, n })
+			b.Func(FBad).Apply(func(b BadStringer, e error, n *NilRecv) (BadStringer, error, *NilRecv) {
+				rec("cb FBad %d", b.n)
+				return b, e, n
+			})
 			r, e, n := FBad(BadStringer{k}, &BadErr{k}, nil)
 			rec("FBad -> %d %v %v", r.n, e != nil, n == nil)
 		})
@@ -193,6 +217,15 @@ func TestC19(t *testing.T) {
 		// methods
 		try("methods", func() {
 			b.Struct(&T{}).Method("M").Apply(func(t *T, a int, s string) int { rec("cb T.M %d %d %q", t.v, a, s); return t.v + a })
+			b.Struct(&T{}).Method("MV").Apply(func(t *T, xs ...string) int {
+				rec("cb T.MV %d nil=%v", len(xs), xs == nil)
+				if len(xs) > 0 {
+					xs[0] = "written"
+				}
+				return len(xs)
+			})
+			ss := []string{"p", "q"}
+			rec("T.MV -> %d %d %d ss[0]=%s", (&T{}).MV(), (&T{}).MV("x"), (&T{}).MV(ss...), ss[0])
 			b.Struct(T{}).Method("V").Return(k)
 			rec("methods -> %d %d", (&T{v: 3}).M(k, "m"), T{v: 4}.V(1))
 		})
@@ -214,6 +247,35 @@ func TestC19(t *testing.T) {
 		b.Reset()
 		rec("after reset -> %d %d %v", F1(1), FV("a"), iv == nil)
 		rep.Eval(1)
+	}
+	// concurrent callers of one mock: with logging on every call passes through the logging interceptor
+	{
+		b := mocker.Create()
+		b.Func(F1).Apply(func(a int) int { return a*2 + 1 })
+		b.Func(F2).When(arg.Any(), "k").Return(5, "five")
+		var wg sync.WaitGroup
+		var wrong int64
+		bar := vmon.NewSpinBarrier(8)
+		for g := 0; g < 8; g++ {
+			wg.Add(1)
+			go func(g int) {
+				defer wg.Done()
+				bar.Wait()
+				for i := 0; i < 300; i++ {
+					a := g*100000 + i
+					if F1(a) != a*2+1 {
+						atomic.AddInt64(&wrong, 1)
+					}
+					if r, s := F2(a, "k"); r != 5 || s != "five" {
+						atomic.AddInt64(&wrong, 1)
+					}
+				}
+			}(g)
+		}
+		wg.Wait()
+		b.Reset()
+		rec("concurrent callers: calls that received another call's result = %d", atomic.LoadInt64(&wrong))
+		rep.Eval(4800)
 	}
 	rep.Class("mode/" + mode)
 	rep.Stat("transcript_lines:"+mode, int64(len(lines)))
